@@ -16,6 +16,20 @@ CLAIMED = {
         "meaning of `live` given by assumed external contracts (lock flag off, or created before last boot, or empty file => not live), "
         "float timestamps as reals, sequential execution, the dispatch table built in __init__. Trusted: pyvc engine + library models + z3/cvc5.",
    design="§3 C14"),
+ "C20": dict(
+   category="proof",
+   text="Representation invariant Table (the MRU order is a permutation of exactly the job numbers: multiset count of x in the order "
+        "is 1 if x is a job else 0) proved preserved, for all tables and arguments, by every operation under contract: _clear_dead_jobs "
+        "(removes exactly the finished jobs from both structures), get_next_job_number (lowest free number >= 1, with a termination "
+        "variant), add_job, get_next_task, resume_job (fg/bg selection: no argument, +, -, number; errors leave the table alone; MRU "
+        "update keeps the order of the rest), bg, disown_fn (no argument or one number), plus the thread-view functions get_tasks / "
+        "get_jobs / use_main_jobs (with-contract: body runs on the main table, previous view restored on normal and exceptional exit). "
+        "The same contracts are evaluated natively on all tables over job numbers 1..3 as an engine cross-check.",
+   note="Unverified: truly concurrent mutation (signal handler / second thread between two statements), the real process state behind "
+        "poll() (ghost function, constant during a call), terminal hand-over in pipeline.resume, _continue/kill; disown with several ids "
+        "(outside the statement); records are owned by their table slot; `fg` itself is resume_job behind @unthreadable. "
+        "Trusted: pyvc engine + library models (deque/dict/set) + z3/cvc5.",
+   design="§3 C20"),
 }
 NA = {
  "C01": "equivalence of two grammars (PLY LALR tables vs CPython's PEG parser) is not a function contract; no contract within reach can express or decide it (DESIGN §3 C01)",
